@@ -17,7 +17,13 @@ package sweep
 //     requested inputs spent exactly once, no output below the dust threshold
 //     of its script, successive published transactions of a request have
 //     non-decreasing fee rate; and the fee function of a live record sits at
-//     its ceiling from deadline-1 on.
+//     its ceiling from deadline-1 on; a sweep given up with ErrNotEnoughBudget
+//     although the budget covers rate x size never gets there (verifC18GaveUp).
+//     The generated inputs carry the optional attributes of input.Input that
+//     take part in lnd's weight / fee computation: required outputs and
+//     locktimes, relative timelocks, segwit-v0 / taproot witness types,
+//     unconfirmed parents (UnconfParent, as the anchors offered for CPFP), and
+//     p2wpkh / p2tr / np2wkh wallet utxos for top-ups.
 //
 //  3. TestVerifC18Regroup (end of file): the real UtxoSweeper (block handler,
 //     handleBumpEvent and its handlers, monitorFeeBumpResult) over the real
@@ -417,6 +423,7 @@ type verifC18Input struct {
 	csv      uint32
 	hint     uint32
 	blob     fn.Option[tlv.Blob]
+	parent   *input.TxInfo
 }
 
 func (i *verifC18Input) OutPoint() wire.OutPoint        { return i.op }
@@ -430,7 +437,7 @@ func (i *verifC18Input) RequiredLockTime() (uint32, bool) {
 }
 func (i *verifC18Input) BlocksToMaturity() uint32            { return i.csv }
 func (i *verifC18Input) HeightHint() uint32                  { return i.hint }
-func (i *verifC18Input) UnconfParent() *input.TxInfo         { return nil }
+func (i *verifC18Input) UnconfParent() *input.TxInfo         { return i.parent }
 func (i *verifC18Input) ResolutionBlob() fn.Option[tlv.Blob] { return i.blob }
 func (i *verifC18Input) Preimage() fn.Option[lntypes.Preimage] {
 	return fn.None[lntypes.Preimage]()
@@ -476,6 +483,13 @@ func (s *verifC18Signer) ComputeInputScript(_ *wire.MsgTx, d *input.SignDescript
 		// an explicit sighash byte.
 		size, _, _ := input.TaprootPubKeySpend.SizeUpperBound()
 		return &input.Script{Witness: verifC18Witness(int(size))}, nil
+	case txscript.IsPayToScriptHash(d.Output.PkScript):
+		// np2wkh: the sigScript is one push of the 22 byte witness
+		// program.
+		return &input.Script{
+			Witness:   wire.TxWitness{make([]byte, 73), make([]byte, 33)},
+			SigScript: append([]byte{0x16, 0x00, 0x14}, make([]byte, 20)...),
+		}, nil
 	default:
 		return &input.Script{Witness: wire.TxWitness{make([]byte, 73), make([]byte, 33)}}, nil
 	}
@@ -538,6 +552,25 @@ type verifC18InSpec struct {
 	ReqOut int64  `json:"req_out"` // 0 = none
 	Budget int64  `json:"budget"`
 	Lock   uint32 `json:"locktime"`
+	verifC18Attrs
+}
+
+// verifC18Attrs: optional attributes of input.Input (drawn from a stream of
+// their own, after everything else).
+type verifC18Attrs struct {
+	CSV       uint32 `json:"csv,omitempty"`            // BlocksToMaturity
+	ParentW   int64  `json:"parent_weight,omitempty"`  // > 0: UnconfParent() reports an unconfirmed parent tx of this weight
+	ParentFee int64  `json:"parent_fee,omitempty"`     // ... paying this fee
+	ParentOf  int    `json:"same_parent_as,omitempty"` // k > 0: the outpoint lies in the same parent tx as input k-1
+}
+
+// verifC18AttrView gives verifC18Decorate access to one generated input.
+type verifC18AttrView struct {
+	a      *verifC18Attrs
+	wt     *string
+	value  *int64
+	reqOut *int64
+	lock   *uint32
 }
 
 type verifC18PubCase struct {
@@ -559,7 +592,14 @@ type verifC18PubCase struct {
 	Steps     []int32          `json:"height_steps"`
 	SpendAt   int              `json:"spend_at_step"` // -1 never
 	SpendOwn  bool             `json:"spend_by_own_tx"`
+	UtxoTy    []string         `json:"wallet_utxo_types,omitempty"` // "" = drawn at run time (p2wpkh / p2tr), "np2wkh" = nested
 }
+
+// verifC18NestedUtxos: offer np2wkh wallet utxos for top-ups. Violations of
+// transactions spending one carry the key class +np2wkh-wallet-input: before
+// /repo 037394c lnd estimated a np2wkh input with the sigScript of a nested
+// p2wsh (48 wu too much; pub_feerate_le_max / pub_ceiling_by_deadline_minus_1).
+const verifC18NestedUtxos = true
 
 var verifC18WitnessTypes = []input.StandardWitnessType{
 	input.CommitmentTimeLock, input.CommitmentNoDelay, input.CommitmentRevoke,
@@ -604,6 +644,117 @@ func verifC18Value(r *verifRng) int64 {
 	default:
 		return 5000 + int64(r.U64n(2000000))
 	}
+}
+
+// verifC18GenParent draws what UnconfParent() reports for an input whose
+// transaction is still unconfirmed (as contractcourt does for the anchor of a
+// commitment it wants to CPFP): the weight of the parent and the fee it pays,
+// at a rate of zero, below, next to or above the rates in around (the rates
+// the sweep moves through).
+func verifC18GenParent(r *verifRng, around []int64) (int64, int64) {
+	var w int64
+	switch r.Intn(7) {
+	case 0:
+		w = 724 + 172*int64(r.Intn(12)) // legacy commitment + htlcs
+	case 1, 2:
+		w = 1116 + 172*int64(r.Intn(40)) // anchor commitment + htlcs
+	case 3:
+		w = 968 + 172*int64(r.Intn(8))
+	case 4:
+		w = 1 + int64(r.Intn(600))
+	case 5:
+		w = 4000 + int64(r.U64n(396000)) // up to the standardness limit
+	default:
+		w = 400 + int64(r.Intn(4000))
+	}
+	var rate int64
+	switch r.Intn(9) {
+	case 0:
+		rate = 0 // zero-fee commitment
+	case 1:
+		rate = 253
+	case 2:
+		rate = int64(r.Intn(254))
+	case 3, 4:
+		rate = around[r.Intn(len(around))] + int64(r.Intn(7)) - 3
+	case 5:
+		rate = 253 + int64(r.Intn(3000))
+	case 6, 7:
+		rate = int64(r.U64n(uint64(around[r.Intn(len(around))]) + 1))
+	default:
+		rate = verifC18Rate(r, around)
+	}
+	if rate < 0 {
+		rate = 0
+	}
+	if rate > 1000000000 {
+		rate = 1000000000
+	}
+	fee := rate * w / 1000
+	if r.Chance(1, 3) {
+		// either side of the rounding of fee*1000/weight.
+		fee += int64(r.Intn(3)) - 1
+	}
+	if fee < 0 {
+		fee = 0
+	}
+	return w, fee
+}
+
+// verifC18ParentRate is the fee rate of a parent in sat/kw (rounded down).
+func verifC18ParentRate(w, fee int64) int64 { return fee * 1000 / w }
+
+var verifC18CSVTypes = map[string]bool{
+	input.CommitmentTimeLock.String(): true, input.TaprootLocalCommitSpend.String(): true,
+	input.HtlcOfferedTimeoutSecondLevelInputConfirmed.String():  true,
+	input.HtlcAcceptedSuccessSecondLevelInputConfirmed.String(): true,
+	input.TaprootHtlcLocalOfferedTimeout.String():               true,
+	input.CommitmentToRemoteConfirmed.String():                  true,
+}
+
+// verifC18Decorate sets the optional attributes of the generated inputs that
+// take part in lnd's weight / fee computation or end up in the transaction:
+// relative timelocks and unconfirmed parents (one or several inputs, also
+// several outputs of one parent). About half of the inputs given a parent are
+// turned into what production offers with one: a 330 sat anchor whose budget
+// has to come from elsewhere. around: rates the sweep moves through.
+func verifC18Decorate(r *verifRng, ins []verifC18AttrView, around []int64) (anchors int) {
+	for _, v := range ins {
+		if verifC18CSVTypes[*v.wt] && r.Chance(1, 2) {
+			v.a.CSV = []uint32{1, 1, 144, 2016, 65535}[r.Intn(5)]
+		}
+	}
+	if !r.Chance(2, 5) {
+		return 0
+	}
+	first := -1
+	for k, v := range ins {
+		if first >= 0 && !r.Chance(1, 3) {
+			continue
+		}
+		if first < 0 && k < len(ins)-1 && r.Chance(1, 3) {
+			continue
+		}
+		if first >= 0 && r.Chance(1, 2) {
+			// another output of the same unconfirmed transaction.
+			v.a.ParentOf = first + 1
+			v.a.ParentW, v.a.ParentFee = ins[first].a.ParentW, ins[first].a.ParentFee
+		} else {
+			v.a.ParentW, v.a.ParentFee = verifC18GenParent(r, around)
+		}
+		if first < 0 {
+			first = k
+		}
+		if r.Chance(1, 2) {
+			*v.wt = input.CommitmentAnchor.String()
+			if r.Chance(1, 3) {
+				*v.wt = input.TaprootAnchorSweepSpend.String()
+			}
+			*v.value, *v.reqOut, *v.lock, v.a.CSV = 330, 0, 0, 0
+			anchors++
+		}
+	}
+	return anchors
 }
 
 func verifC18GenPub(r *verifRng) verifC18PubCase {
@@ -731,6 +882,40 @@ func verifC18GenPub(r *verifRng) verifC18PubCase {
 		c.SpendAt = r.Intn(len(c.Steps))
 		c.SpendOwn = r.Bool()
 	}
+
+	// optional input attributes, from a stream of their own.
+	ra := r.Fork("attrs")
+	start := c.Est.Answer
+	if c.HasStart {
+		start = c.Start
+	}
+	var views []verifC18AttrView
+	for k := range c.Inputs {
+		s := &c.Inputs[k]
+		views = append(views, verifC18AttrView{&s.verifC18Attrs, &s.WT, &s.Value, &s.ReqOut, &s.Lock})
+	}
+	if anchors := verifC18Decorate(ra, views, []int64{start, c.MaxRate, c.Est.Relay, (start + c.MaxRate) / 2}); anchors > 0 {
+		// an anchor cannot pay for itself: the fee comes from a wallet
+		// utxo (through the input set), or from a further input.
+		if c.ViaSet {
+			for len(c.Utxos) < 1+ra.Intn(2) {
+				c.Utxos = append(c.Utxos, 1000+int64(ra.U64n(3000000)))
+			}
+		} else if ra.Chance(3, 4) {
+			wt := input.WitnessKeyHash
+			if ra.Bool() {
+				wt = input.TaprootPubKeySpend
+			}
+			c.Inputs = append(c.Inputs, verifC18InSpec{Value: 5000 + int64(ra.U64n(2000000)), WT: wt.String(), Budget: 1})
+		}
+	}
+	for range c.Utxos {
+		ty := ""
+		if verifC18NestedUtxos && ra.Chance(1, 5) {
+			ty = "np2wkh"
+		}
+		c.UtxoTy = append(c.UtxoTy, ty)
+	}
 	return c
 }
 
@@ -778,6 +963,12 @@ type verifC18Wallet struct {
 	lastNom   int64
 	utxos     []*lnwallet.Utxo
 	nViol     int
+
+	// optional input attributes present in this case
+	parents    map[chainhash.Hash][2]int64 // unconfirmed parent txid -> (weight, fee)
+	nested     bool                        // a np2wkh wallet utxo is on offer
+	cpfpActive int                         // txs handed over while a parent paid less than the offered rate
+	cpfpIdle   int                         // ... while every parent paid at least the offered rate
 }
 
 func (w *verifC18Wallet) BackEnd() string { return "bitcoind" }
@@ -851,6 +1042,40 @@ func (w *verifC18Wallet) judge(via string, tx *wire.MsgTx) {
 	w.handed = append(w.handed, verifC18Handed{Via: via, Height: w.height, Fee: fee, Weight: weight,
 		NIn: len(tx.TxIn), NOut: len(tx.TxOut), Change: hasChange, Nominal: nominal})
 
+	// what the workload exercises: transactions built while an unconfirmed
+	// parent of one of the inputs pays less than the rate on offer (the
+	// situation in which a CPFP-aware fee computation differs).
+	if len(w.parents) > 0 {
+		below := 0
+		for _, p := range w.parents {
+			if verifC18ParentRate(p[0], p[1]) < nominal {
+				below++
+			}
+		}
+		if below > 0 {
+			w.cpfpActive++
+			vc.Count("pub_txs_with_parent_below_offered_rate", 1)
+		} else {
+			w.cpfpIdle++
+			vc.Count("pub_txs_with_parents_at_or_above_offered_rate", 1)
+		}
+	}
+	// fingerprint class of its own: np2wkh wallet utxos are spent and an
+	// over-estimate of 48 wu for each of them (a nested p2wsh sigScript
+	// instead of a nested p2wkh one) explains the excess over MaxFeeRate.
+	nestedCls, nNested := "", int64(0)
+	for _, in := range tx.TxIn {
+		if len(in.SignatureScript) > 0 {
+			nNested++
+		}
+	}
+	if nNested > 0 {
+		vc.Count("pub_txs_with_np2wkh_input", 1)
+		if fee*1000 <= int64(req.MaxFeeRate)*(weight+48*nNested+4) {
+			nestedCls = "+np2wkh-wallet-input"
+		}
+	}
+
 	// fee <= budget
 	vc.Count("oracle_pub_budget_evals", 1)
 	if fee > int64(req.Budget) || fee < 0 {
@@ -866,7 +1091,7 @@ func (w *verifC18Wallet) judge(via string, tx *wire.MsgTx) {
 		// was folded into the fee of a tx without change output.
 		dust, _ := verifC18Dust(req.DeliveryAddress.DeliveryAddress)
 		wWith := weight + int64(4*(8+1+len(req.DeliveryAddress.DeliveryAddress)))
-		key := "fee-rate-above-max"
+		key := "fee-rate-above-max" + nestedCls
 		switch {
 		// class KF-C18-1: the caller's explicit starting fee rate is
 		// above MaxFeeRate and the fee function itself offers a rate
@@ -885,7 +1110,14 @@ func (w *verifC18Wallet) judge(via string, tx *wire.MsgTx) {
 		// class KF-C18-2: the fee function's rate respects the
 		// maximum; the whole excess is sub-dust change that was
 		// folded into the fee of a tx without change output.
-		case nominal <= c.MaxRate && !hasChange && (fee-dust)*1000 < int64(req.MaxFeeRate)*wWith:
+		//
+		// Kept to what the sub-dust change alone explains: the fee
+		// is less than one dust limit above the fee of the tx with
+		// its change output at the fee function's rate (4 wu and
+		// 1 sat of rounding slack).
+		case nominal <= c.MaxRate && !hasChange && (fee-dust)*1000 < int64(req.MaxFeeRate)*wWith &&
+			(fee-dust-1)*1000 < nominal*(wWith+4):
+
 			key += "+only-by-sub-dust-change-folded-into-fee"
 		}
 		w.nViol++
@@ -989,8 +1221,9 @@ func verifC18WT(name string) input.StandardWitnessType {
 }
 
 func verifC18RunPub(t *testing.T, vc *verifCtx, r *verifRng, c *verifC18PubCase) {
-	w := &verifC18Wallet{vc: vc, c: c, vals: map[wire.OutPoint]int64{}, height: c.Height}
-	for _, v := range c.Utxos {
+	w := &verifC18Wallet{vc: vc, c: c, vals: map[wire.OutPoint]int64{}, height: c.Height,
+		parents: map[chainhash.Hash][2]int64{}}
+	for k, v := range c.Utxos {
 		op := wire.OutPoint{Index: uint32(r.Intn(4))}
 		copy(op.Hash[:], r.Bytes(32))
 		ty := lnwallet.WitnessPubKey
@@ -998,6 +1231,11 @@ func verifC18RunPub(t *testing.T, vc *verifCtx, r *verifRng, c *verifC18PubCase)
 		if r.Bool() {
 			ty = lnwallet.TaprootPubkey
 			pk = verifC18Script(r, "p2tr")
+		}
+		if k < len(c.UtxoTy) && c.UtxoTy[k] == "np2wkh" {
+			ty = lnwallet.NestedWitnessPubKey
+			pk = verifC18Script(r, "p2sh")
+			w.nested = true
 		}
 		w.utxos = append(w.utxos, &lnwallet.Utxo{AddressType: ty, Value: btcutil.Amount(v),
 			Confirmations: 6, PkScript: pk, OutPoint: op})
@@ -1017,11 +1255,20 @@ func verifC18RunPub(t *testing.T, vc *verifCtx, r *verifRng, c *verifC18PubCase)
 
 	var sweeperInputs []SweeperInput
 	var plain []input.Input
-	for _, s := range c.Inputs {
+	for k, s := range c.Inputs {
 		op := wire.OutPoint{Index: uint32(r.Intn(4))}
 		copy(op.Hash[:], r.Bytes(32))
-		inp := &verifC18Input{op: op, wt: verifC18WT(s.WT), lockTime: s.Lock, hint: uint32(c.Height) - 10,
+		if s.ParentOf > 0 {
+			// another output of the same unconfirmed parent.
+			op.Hash = plain[s.ParentOf-1].OutPoint().Hash
+			op.Index = uint32(10 + k)
+		}
+		inp := &verifC18Input{op: op, wt: verifC18WT(s.WT), lockTime: s.Lock, csv: s.CSV, hint: uint32(c.Height) - 10,
 			desc: input.SignDescriptor{Output: &wire.TxOut{Value: s.Value, PkScript: verifC18Script(r, "p2wsh")}}}
+		if s.ParentW > 0 {
+			inp.parent = &input.TxInfo{Fee: btcutil.Amount(s.ParentFee), Weight: lntypes.WeightUnit(s.ParentW)}
+			w.parents[op.Hash] = [2]int64{s.ParentW, s.ParentFee}
+		}
 		if s.ReqOut > 0 {
 			inp.reqOut = &wire.TxOut{Value: s.ReqOut, PkScript: verifC18Script(r, "p2wsh")}
 		}
@@ -1126,6 +1373,7 @@ func verifC18RunPub(t *testing.T, vc *verifCtx, r *verifRng, c *verifC18PubCase)
 		}
 	}
 	close(tp.quit)
+	verifC18GaveUp(vc, w, req, results, aux)
 
 	npub := len(w.published)
 	if npub > 0 {
@@ -1136,6 +1384,44 @@ func verifC18RunPub(t *testing.T, vc *verifCtx, r *verifRng, c *verifC18PubCase)
 	}
 	if ceilingChecked {
 		vc.Count("pub_cases_ceiling_checked", 1)
+	}
+	cp := 0
+	if len(w.parents) > 0 {
+		cp = 1
+		vc.Count("pub_cases_with_unconf_parent", 1)
+		shared := false
+		for _, s := range c.Inputs {
+			if s.ParentW > 0 {
+				vc.Count("pub_inputs_with_unconf_parent", 1)
+			}
+			shared = shared || s.ParentOf > 0
+		}
+		if shared {
+			vc.Count("pub_cases_with_shared_unconf_parent", 1)
+		}
+		if w.cpfpIdle > 0 {
+			cp = 2
+		}
+		if w.cpfpActive > 0 {
+			cp = 3
+			vc.Count("pub_cases_with_parent_below_offered_rate", 1)
+			if npub > 1 {
+				vc.Count("pub_cases_replaced_with_parent_below_offered_rate", 1)
+			}
+			if ceilingChecked {
+				vc.Count("pub_cases_ceiling_checked_with_parent_below_offered_rate", 1)
+			}
+		}
+		if shared && cp == 3 {
+			cp = 4
+		}
+	}
+	csv := false
+	for _, s := range c.Inputs {
+		csv = csv || s.CSV > 0
+	}
+	if csv && len(w.handed) > 0 {
+		vc.Count("pub_cases_with_csv_input", 1)
 	}
 	ev := map[string]int{}
 	for _, res := range results {
@@ -1148,9 +1434,9 @@ func verifC18RunPub(t *testing.T, vc *verifCtx, r *verifRng, c *verifC18PubCase)
 				reqOuts++
 			}
 		}
-		vc.Sig(fmt.Sprintf("pub|n%d|ro%d|set%v|top%v|pub%d|rep%d|fail%d|us%d|ch%s|aux%v", len(c.Inputs), reqOuts, c.ViaSet,
+		vc.Sig(fmt.Sprintf("pub|n%d|ro%d|set%v|top%v|pub%d|rep%d|fail%d|us%d|ch%s|aux%v|cp%d|csv%v", len(c.Inputs), reqOuts, c.ViaSet,
 			len(req.Inputs) > len(plain), verifC18Bucket(int64(npub)), ev["Replaced"], ev["Failed"]+ev["Fatal"],
-			ev["UnknownSpend"], c.ChangeTy, c.Aux > 0))
+			ev["UnknownSpend"], c.ChangeTy, c.Aux > 0, cp, csv))
 	}
 }
 
@@ -1192,12 +1478,98 @@ func verifC18Ceiling(vc *verifCtx, w *verifC18Wallet, rec *monitorRecord, h int3
 		if rate > ceiling {
 			key = "above-ceiling"
 		}
+		// fingerprint class of its own: np2wkh wallet utxos are spent
+		// and an over-estimate of 48 wu for each of them explains a
+		// ceiling below budget-over-size.
+		nNested := int64(0)
+		for _, in := range rec.tx.TxIn {
+			if len(in.SignatureScript) > 0 {
+				nNested++
+			}
+		}
+		if nNested > 0 && rate <= hi && rate >= int64(req.Budget)*1000/(weight+48*nNested+4)-1 {
+			key += "+np2wkh-wallet-input"
+		}
 		if w.c.HasStart && w.c.Start > ceiling && rate > ceiling {
 			key += "+explicit-start-above-ending-rate"
 		}
 		vc.Violation("pub_ceiling_by_deadline_minus_1", key,
 			fmt.Sprintf("height %d (deadline %d): fee function rate %d, ceiling min(budget %d *1000/ weight %d = %d, max %d) = %d",
 				h, req.DeadlineHeight, rate, req.Budget, weight, budgetRate, req.MaxFeeRate, ceiling),
+			map[string]any{"case": w.c, "handed": w.handed})
+	}
+}
+
+// verifC18CoveredByBudget tells whether the sweep of inputs at rate sat/kw is
+// possible within budget: the fee of the transaction with its change output
+// (weight from the harness' own model, 8 wu and 1 sat of slack) is within the
+// budget, and what the inputs leave after the required outputs and that fee
+// makes a change output that is not dust.
+func verifC18CoveredByBudget(inputs []input.Input, vals func(wire.OutPoint) int64, changePk []byte, extra *wire.TxOut,
+	rate, budget int64) (covered, judged bool, weight, fee int64) {
+
+	var extraPks [][]byte
+	var sumIn, sumReq int64
+	if extra != nil {
+		extraPks = append(extraPks, extra.PkScript)
+		sumReq += extra.Value
+	}
+	weight, ok := verifC18ModelWeight(inputs, changePk, extraPks...)
+	if !ok || rate <= 0 {
+		return false, false, weight, 0
+	}
+	for _, in := range inputs {
+		sumIn += vals(in.OutPoint())
+		if o := in.RequiredTxOut(); o != nil {
+			sumReq += o.Value
+		}
+	}
+	fee = rate*(weight+8)/1000 + 1
+	dust, _ := verifC18Dust(changePk)
+	return fee <= budget && sumIn-sumReq-fee >= dust, true, weight, fee
+}
+
+// verifC18GaveUp: "reaches its ceiling (the lesser of budget-over-size and the
+// maximum rate) no later than one block before the deadline". A sweep that
+// the publisher gives up with ErrNotEnoughBudget never gets there; the
+// statement leaves room for that only when the budget really does not cover
+// rate x size of the sweep transaction at the offered rate (or no non-dust
+// change can be made from what is left). The rate used is the one the failed
+// result reports for the retry, which is at or above the rate of the attempt
+// that failed (so the judgement errs on the side of the publisher).
+func verifC18GaveUp(vc *verifCtx, w *verifC18Wallet, req *BumpRequest, results []*BumpResult, aux fn.Option[AuxSweeper]) {
+	for _, res := range results {
+		if res.Err == nil || !errors.Is(res.Err, ErrNotEnoughBudget) {
+			continue
+		}
+		vc.Count("pub_gave_up_not_enough_budget", 1)
+		var extra *wire.TxOut
+		if w.c.Aux > 0 {
+			aux.WhenSome(func(a AuxSweeper) { extra = &a.(*verifC18Aux).out })
+		}
+		rate := int64(res.FeeRate)
+		covered, judged, weight, fee := verifC18CoveredByBudget(req.Inputs,
+			func(op wire.OutPoint) int64 { return w.vals[op] }, req.DeliveryAddress.DeliveryAddress, extra,
+			rate, int64(req.Budget))
+		if !judged {
+			vc.Count("pub_gave_up_not_judged", 1)
+			continue
+		}
+		vc.Count("oracle_pub_gave_up_evals", 1)
+		if len(w.parents) > 0 {
+			vc.Count("oracle_pub_gave_up_evals_with_unconf_parent", 1)
+		}
+		if !covered {
+			continue
+		}
+		key := "gave-up-not-enough-budget-although-budget-covers-rate-x-size"
+		if len(w.handed) == 0 {
+			key += "+before-first-tx"
+		}
+		w.nViol++
+		vc.Violation("pub_ceiling_by_deadline_minus_1", key,
+			fmt.Sprintf("%s result (%v) with retry rate %d sat/kw: at that rate the sweep tx (model weight %d with change) costs at most %d, budget %d, MaxFeeRate %d, deadline %d",
+				res.Event, res.Err, rate, weight, fee, req.Budget, req.MaxFeeRate, req.DeadlineHeight),
 			map[string]any{"case": w.c, "handed": w.handed})
 	}
 }
@@ -1278,6 +1650,7 @@ type verifC18RGIn struct {
 	ViaFailed bool   `json:"via_publish_failed"`
 	PrevStart int64  `json:"start_before_that"` // >0: the failed attempt had itself started from this carried-over rate
 	Arrive    int    `json:"arrives_at_block"`  // 0: pending from the start; k: offered with the k-th later block
+	verifC18Attrs
 }
 
 // verifC18OneSet is the input set of an earlier, failed sweep as far as the
@@ -1286,7 +1659,7 @@ type verifC18OneSet struct {
 	in input.Input
 }
 
-func (o *verifC18OneSet) Inputs() []input.Input       { return []input.Input{o.in} }
+func (o *verifC18OneSet) Inputs() []input.Input        { return []input.Input{o.in} }
 func (o *verifC18OneSet) AddWalletInputs(Wallet) error { return nil }
 func (o *verifC18OneSet) NeedWalletInput() bool        { return false }
 func (o *verifC18OneSet) DeadlineHeight() int32        { return 0 }
@@ -1479,6 +1852,20 @@ func verifC18GenRG(r *verifRng) verifC18RGCase {
 		c.SpendAt = r.Intn(len(c.Steps))
 		c.SpendIn = r.Intn(len(c.Inputs))
 	}
+
+	// optional input attributes, from a stream of their own.
+	ra := r.Fork("attrs")
+	var views []verifC18AttrView
+	for k := range c.Inputs {
+		s := &c.Inputs[k]
+		views = append(views, verifC18AttrView{&s.verifC18Attrs, &s.WT, &s.Value, &s.ReqOut, &s.Lock})
+	}
+	if anchors := verifC18Decorate(ra, views, []int64{c.Est.Answer, maxKW, c.Est.Relay, (c.Est.Answer + maxKW) / 2}); anchors > 0 {
+		// an anchor cannot pay for itself.
+		for len(c.Utxos) < 1+ra.Intn(2) {
+			c.Utxos = append(c.Utxos, 1000+int64(ra.U64n(3000000)))
+		}
+	}
 	return c
 }
 
@@ -1494,6 +1881,8 @@ type verifC18RGReq struct {
 	multi   bool
 	corner  bool
 	topup   bool
+	parents int   // inputs with an unconfirmed parent
+	minPar  int64 // lowest fee rate among those parents
 	handed  int
 	height  int32
 	dead    bool
@@ -1635,7 +2024,7 @@ func (g *verifC18RG) witness() any {
 // the given inputs (witnesses at the size upper bound of their type) to their
 // required outputs plus one change output, written down independently of the
 // sweep package's weight estimator.
-func verifC18ModelWeight(inputs []input.Input, changePk []byte) (int64, bool) {
+func verifC18ModelWeight(inputs []input.Input, changePk []byte, extraOuts ...[]byte) (int64, bool) {
 	varint := func(n int) int64 {
 		switch {
 		case n < 0xfd:
@@ -1648,11 +2037,21 @@ func verifC18ModelWeight(inputs []input.Input, changePk []byte) (int64, bool) {
 	}
 	nOut := 1
 	outBytes := int64(8) + varint(len(changePk)) + int64(len(changePk))
+	for _, pk := range extraOuts {
+		nOut++
+		outBytes += 8 + varint(len(pk)) + int64(len(pk))
+	}
 	var witness int64 = 2 // marker + flag
+	var sigScripts int64
 	for _, in := range inputs {
 		size, nested, err := in.WitnessType().SizeUpperBound()
-		if err != nil || nested {
+		if err != nil || (nested && in.WitnessType() != input.NestedWitnessKeyHash) {
 			return 0, false
+		}
+		if nested {
+			// np2wkh: the sigScript is one push of the 22 byte
+			// witness program.
+			sigScripts += 23
 		}
 		witness += int64(size)
 		if o := in.RequiredTxOut(); o != nil {
@@ -1660,7 +2059,7 @@ func verifC18ModelWeight(inputs []input.Input, changePk []byte) (int64, bool) {
 			outBytes += 8 + varint(len(o.PkScript)) + int64(len(o.PkScript))
 		}
 	}
-	base := int64(4) + varint(len(inputs)) + int64(41*len(inputs)) + varint(nOut) + outBytes + 4
+	base := int64(4) + varint(len(inputs)) + int64(41*len(inputs)) + sigScripts + varint(nOut) + outBytes + 4
 	return 4*base + witness, true
 }
 
@@ -1754,6 +2153,12 @@ func (g *verifC18RG) Broadcast(req *BumpRequest) <-chan *BumpResult {
 		g.reqOf[in.OutPoint()] = qi
 		q.members = append(q.members, m)
 		q.sumBud += g.c.Inputs[m].Budget
+		if sp := g.c.Inputs[m]; sp.ParentW > 0 {
+			if pr := verifC18ParentRate(sp.ParentW, sp.ParentFee); q.parents == 0 || pr < q.minPar {
+				q.minPar = pr
+			}
+			q.parents++
+		}
 		if g.last[m] > 0 {
 			starts[g.last[m]] = true
 		}
@@ -1776,6 +2181,9 @@ func (g *verifC18RG) Broadcast(req *BumpRequest) <-chan *BumpResult {
 	}
 	if q.topup {
 		vc.Count("regroup_requests_with_wallet_topup", 1)
+	}
+	if q.parents > 0 {
+		vc.Count("regroup_requests_with_unconf_parent", 1)
 	}
 	maxKW := g.c.MaxVB * 250
 	w, ok := verifC18ModelWeight(req.Inputs, req.DeliveryAddress.DeliveryAddress)
@@ -1948,6 +2356,7 @@ func (g *verifC18RG) observe(resp *bumpResp) {
 			g.lowered[m] = true
 		}
 	}
+	g.judgeGaveUp(resp, members)
 	g.vc.Count("regroup_results_"+r.Event.String(), 1)
 	if r.Event == TxFailed && r.FeeRate == 0 {
 		g.vc.Count("regroup_results_TxFailed_without_fee_rate", 1)
@@ -1960,6 +2369,47 @@ func (g *verifC18RG) observe(resp *bumpResp) {
 		}
 	}
 	g.evlog = append(g.evlog, ev)
+}
+
+// judgeGaveUp: "reaches its ceiling (the lesser of budget-over-size and the
+// maximum rate) no later than one block before the deadline". A request the
+// publisher gives up with ErrNotEnoughBudget does not; the statement leaves
+// room for that only when the budgets attached to its inputs do not cover
+// rate x size at the offered rate (see verifC18GaveUp).
+func (g *verifC18RG) judgeGaveUp(resp *bumpResp, members []int) {
+	r := resp.result
+	if r.Err == nil || !errors.Is(r.Err, ErrNotEnoughBudget) || len(members) == 0 {
+		return
+	}
+	qi, ok := g.reqOf[g.ops[members[0]]]
+	if !ok {
+		return
+	}
+	q := g.reqs[qi]
+	g.vc.Count("regroup_gave_up_not_enough_budget", 1)
+	rate := int64(r.FeeRate)
+	covered, judged, weight, fee := verifC18CoveredByBudget(q.req.Inputs,
+		func(op wire.OutPoint) int64 { return g.vals[op] }, q.req.DeliveryAddress.DeliveryAddress, nil,
+		rate, q.sumBud)
+	if !judged {
+		g.vc.Count("regroup_gave_up_not_judged", 1)
+		return
+	}
+	g.vc.Count("oracle_regroup_gave_up_evals", 1)
+	if q.parents > 0 {
+		g.vc.Count("oracle_regroup_gave_up_evals_with_unconf_parent", 1)
+	}
+	if !covered {
+		return
+	}
+	key := "gave-up-not-enough-budget-although-budgets-cover-rate-x-size"
+	if q.handed == 0 {
+		key += "+before-first-tx"
+	}
+	g.vc.Violation("regroup_ceiling", key,
+		fmt.Sprintf("height %d: request of inputs %v (deadline %d): %s result (%v) with retry rate %d sat/kw: at that rate the sweep tx (model weight %d with change) costs at most %d, the inputs carry budgets of %d (request budget %d), MaxFeeRate %d",
+			g.height, q.members, q.req.DeadlineHeight, r.Event, r.Err, rate, weight, fee, q.sumBud, q.req.Budget, q.req.MaxFeeRate),
+		g.witness())
 }
 
 // answer picks the scripted answer for a transaction led by input lead.
@@ -2045,6 +2495,13 @@ func (g *verifC18RG) judgeTx(via string, tx *wire.MsgTx, script []string, calls 
 		Nominal: nominal, Ceil: q.ceil, Answer: answer})
 	if q.height > g.c.Height {
 		vc.Count("regroup_txs_of_later_rounds", 1)
+	}
+	if q.parents > 0 && nominal >= 0 {
+		if q.minPar < nominal {
+			vc.Count("regroup_txs_with_parent_below_offered_rate", 1)
+		} else {
+			vc.Count("regroup_txs_with_parents_at_or_above_offered_rate", 1)
+		}
 	}
 
 	// calibration of the weight model behind the ceiling (diagnostic).
@@ -2181,8 +2638,17 @@ func verifC18RunRG(t *testing.T, vc *verifCtx, r *verifRng, c *verifC18RGCase) {
 	for k, sp := range c.Inputs {
 		op := wire.OutPoint{Index: uint32(r.Intn(4))}
 		copy(op.Hash[:], r.Bytes(32))
-		inp := &verifC18Input{op: op, wt: verifC18WT(sp.WT), lockTime: sp.Lock, hint: uint32(c.Height) - 10,
+		if sp.ParentOf > 0 {
+			// another output of the same unconfirmed parent.
+			op.Hash = g.ops[sp.ParentOf-1].Hash
+			op.Index = uint32(10 + k)
+		}
+		inp := &verifC18Input{op: op, wt: verifC18WT(sp.WT), lockTime: sp.Lock, csv: sp.CSV, hint: uint32(c.Height) - 10,
 			desc: input.SignDescriptor{Output: &wire.TxOut{Value: sp.Value, PkScript: verifC18Script(r, "p2wsh")}}}
+		if sp.ParentW > 0 {
+			inp.parent = &input.TxInfo{Fee: btcutil.Amount(sp.ParentFee), Weight: lntypes.WeightUnit(sp.ParentW)}
+			vc.Count("regroup_inputs_with_unconf_parent", 1)
+		}
 		if sp.ReqOut > 0 {
 			inp.reqOut = &wire.TxOut{Value: sp.ReqOut, PkScript: verifC18Script(r, "p2wsh")}
 		}
@@ -2270,12 +2736,13 @@ func verifC18RunRG(t *testing.T, vc *verifCtx, r *verifRng, c *verifC18RGCase) {
 
 	// bookkeeping
 	inReq := map[int]bool{}
-	multi, corner, topup, offered, later := false, false, false, 0, 0
+	multi, corner, topup, cpfp, offered, later := false, false, false, false, 0, 0
 	for _, q := range g.reqs {
 		for _, m := range q.members {
 			inReq[m] = true
 		}
 		multi = multi || q.multi
+		cpfp = cpfp || q.parents > 0
 		corner = corner || q.corner
 		topup = topup || q.topup
 		if q.handed > 0 {
@@ -2313,11 +2780,11 @@ func verifC18RunRG(t *testing.T, vc *verifCtx, r *verifRng, c *verifC18RGCase) {
 				arr++
 			}
 		}
-		vc.Sig(fmt.Sprintf("rg|n%d|req%d|later%d|max%d|mixed%v|corner%v|top%v|lock%v|excl%v|imm%v|arr%v|off%d|fail%d|fatal%d|unk%d|repl%d",
+		vc.Sig(fmt.Sprintf("rg|n%d|req%d|later%d|max%d|mixed%v|corner%v|top%v|lock%v|excl%v|imm%v|arr%v|off%d|fail%d|fatal%d|unk%d|repl%d|cp%v",
 			verifC18Bucket(int64(len(c.Inputs))), verifC18Bucket(int64(len(g.reqs))), verifC18Bucket(int64(later)), c.MaxInputs,
 			multi, corner, topup, locks > 0, excl > 0, imm > 0, arr > 0, verifC18Bucket(int64(offered)),
 			verifC18Bucket(int64(g.events["Failed"])), verifC18Bucket(int64(g.events["Fatal"])),
-			verifC18Bucket(int64(g.events["UnknownSpend"])), verifC18Bucket(int64(g.events["Replaced"]))))
+			verifC18Bucket(int64(g.events["UnknownSpend"])), verifC18Bucket(int64(g.events["Replaced"])), cpfp))
 	}
 }
 
